@@ -57,6 +57,8 @@ def gen_cases(seed, tier):
         cfgs = [cfgs[i] for i in idx]
     out = []
     for i, c in enumerate(cfgs):
+        # 1-4 dimensions (above 2 flowjax inserts key-dependent permutation layers, zuko alternates its masks differently)
+        c["dims"] = (2, 3, 2, 1, 3, 4)[i % 6] if tier == "quick" else (1, 2, 3, 4)[i % 4]
         ss = stream_seeds(seed, ID, 1 + i)
         out.append({"run_index": i, "cfg": c, "seed": ss["scenario"] % (1 << 30), "tier": tier,
                     "replicates": 12 if tier == "quick" else 48, "n_draw": 2000})
@@ -108,9 +110,9 @@ def const_like(samples):
 def build_flow(cfg, seed):
     from aspire.transforms import FlowTransform
 
-    d = 2
-    params = ["q", "m"]  # not in alphabetical order (HDF5 groups iterate alphabetically)
-    lo, hi = np.array([-2.0, 1.0]), np.array([3.0, 9.0])
+    d = int(cfg.get("dims", 2))
+    params = ["q", "m", "z", "b"][:d]  # not in alphabetical order (HDF5 groups iterate alphabetically)
+    lo, hi = np.array([-2.0, 1.0, 0.5, -7.0])[:d], np.array([3.0, 9.0, 2.5, -1.0])[:d]
     bounds = {p: (float(l), float(h)) for p, l, h in zip(params, lo, hi)}
     rng = rng_from(seed)
     if cfg["backend"] == "zuko":
@@ -258,7 +260,7 @@ def run_case(case, workdir):
     ref = RefPrior(cfg["bounded"], lo, hi, med, s)
     import array_api_compat.numpy as xnp
 
-    A = Aspire(log_likelihood=const_like, log_prior=PriorFn(ref), dims=2, parameters=params, prior_bounds=bounds, flow=flow,
+    A = Aspire(log_likelihood=const_like, log_prior=PriorFn(ref), dims=len(params), parameters=params, prior_bounds=bounds, flow=flow,
                xp=xnp, dtype="float64")
     zs, ess = [], []
     for r in range(case["replicates"]):
@@ -280,7 +282,7 @@ def run_case(case, workdir):
     return {
         "violations": V, "aborted": None, "evaluations": evaluations, "events": evaluations,
         "probes": probes, "faults_fired": {"restart": 1},
-        "nontrivial_keys": [[cfg["backend"], cfg["bounded"], cfg["affine"], cfg["dtype"], cfg["trained"], cfg.get("refit", False)]] if conclusive else [],
+        "nontrivial_keys": [[cfg["backend"], cfg["bounded"], cfg["affine"], cfg["dtype"], cfg["trained"], cfg.get("refit", False), cfg.get("dims", 2)]] if conclusive else [],
         "digest": digest_of([zs, [v["oracle"] for v in V]]),
         "sample": jsonable({"cfg": cfg, "E_Zhat": mean, "se": se, "median_ess": float(np.median(ess)), "replicates": len(zs)}),
     }
